@@ -39,6 +39,7 @@ def aggregate(mod, prop, tier, seed, total, results, crashed) -> dict:
     samples = []
     not_run = 0
     wall_cases = []
+    porepy_paths = set()
     for r in results:
         counters.update(r["counters"])
         classes.update(r["classes"])
@@ -63,6 +64,7 @@ def aggregate(mod, prop, tier, seed, total, results, crashed) -> dict:
         violations.extend(r["violation_cases"])
         samples.extend(r["samples"])
         not_run += r.get("not_run", 0)
+        porepy_paths.add(r.get("porepy_path", "?"))
     # make sure requested reach targets appear even if no worker reported
     for f, q in getattr(mod, "REACH", ()):
         reach_fn.setdefault(f"{f}:{q}", 0)
@@ -80,6 +82,7 @@ def aggregate(mod, prop, tier, seed, total, results, crashed) -> dict:
         reach_unresolved=sorted(unresolved), violations=violations,
         samples=samples[:6], crashed=crashed, not_run=not_run,
         case_wall_max=max(wall_cases) if wall_cases else 0.0,
+        porepy_paths=sorted(porepy_paths),
     )
 
 
@@ -193,6 +196,7 @@ def evidence(mod, prop, tier, seed, agg) -> dict:
         "known_finding_hits": agg.get("known_finding_hits", {}),
         "new_violation_cases": agg.get("new_violation_cases", 0),
         "max_case_wall_s": agg["case_wall_max"],
+        "porepy_under_test": agg["porepy_paths"],
         "exhaustive": bool(getattr(mod, "EXHAUSTIVE", {}).get(tier, False)),
     }
     if agg.get("inconclusive_why"):
